@@ -1589,17 +1589,19 @@ package connect
 //@   ensures res != nil ==> asErr(res) == res                                                           // label: errors-are-coded
 
 //@ constfield grpcClientConn.duplexCall, grpcClientConn.responseHeader, grpcClientConn.responseTrailer, grpcClientConn.bufferPool, grpcClientConn.protobuf, grpcClientConn.readTrailers, grpcClientConn.compressionPools
-//@ trusted func field:grpcClientConn.readTrailers(u, call) res
+//@ trusted func field:grpcClientConn.readTrailers(u, call) (res, err)
 //@   assigns everything
 //@   ensures res != nil
-//@   doc: "the two closures installed by grpcClient.NewConn (HTTP trailers after draining the body / the gRPC-Web trailer frame); not yet under contract"
+//@   doc: "the two closures installed by grpcClient.NewConn (HTTP trailers after draining the body / the gRPC-Web trailer frame), both under contract (NewConn$2, NewConn$3)"
 
 //@ func (*grpcClientConn).Receive(cc, msg) err
-//@   tags C04, C06, C03, C11
+//@   tags C04, C06, C03, C11, C15
 //@   requires cc != nil && cc.duplexCall != nil && cc.duplexCall.requestBodyReader != nil && cc.responseTrailer != nil && cc.responseHeader != nil && cc.bufferPool != nil && cc.protobuf != nil && cc.readTrailers != nil
 //@   requires cc.unmarshaler.envelopeReader.reader != nil && !pooled(cc.unmarshaler.envelopeReader.reader) && termerr(cc.unmarshaler.envelopeReader.reader) != errSpecialEnvelope && cc.unmarshaler.envelopeReader.bufferPool != nil && cc.unmarshaler.envelopeReader.codec != nil
 //@   assert@call(field:grpcClientConn.readTrailers#1): !called("(*duplexHTTPCall).SetError", 1) && !called("(*duplexHTTPCall).SetError", 2) && !called("(*duplexHTTPCall).SetError", 3)   // label: trailers-are-read-before-the-call-is-marked-failed-so-the-body-can-still-be-drained   // tags: C03, C04
-//@   assert@call(mergeHeaders#1): arg0 == cc.responseTrailer && arg1 == callres("field:grpcClientConn.readTrailers", 1)   // label: the-trailers-read-join-the-response-trailers   // tags: C11, C03
+//@   assert@call(mergeHeaders#1): arg0 == cc.responseTrailer && arg1 == callres("field:grpcClientConn.readTrailers", 1, 0)   // label: the-trailers-read-join-the-response-trailers   // tags: C11, C03
+//@   ensures called("field:grpcClientConn.readTrailers", 1) && callres("field:grpcClientConn.readTrailers", 1, 1) != nil && !Is(callres("field:grpcClientConn.readTrailers", 1, 1), io.EOF) && Is(callres("(*grpcUnmarshaler).Unmarshal", 1), io.EOF) ==> err == callres("wrapIfUncoded", 1) && !called("grpcErrorFromTrailer", 1)   // label: when-the-body-ended-but-the-trailers-cannot-be-reached-the-reason-is-reported-not-a-missing-status   // tags: C15, C04
+//@   assert@call(wrapIfUncoded#1): arg0 == callres("field:grpcClientConn.readTrailers", 1, 1)   // label: the-reason-is-the-drain's-error   // tags: C15
 //@   assigns everything
 //@   ensures callres("(*grpcUnmarshaler).Unmarshal", 1) == nil ==> err == nil                          // label: a-decoded-message-is-delivered
 //@   ensures err != nil && Is(err, io.EOF) ==> (called("grpcErrorFromTrailer", 1) && (callres("grpcErrorFromTrailer", 1) == nil || err == callres("grpcErrorFromTrailer", 1))) || callres("(http.Header).Get", 1) != ""   // label: clean-end-only-with-grpc-status-in-trailers-or-headers
@@ -1704,11 +1706,13 @@ package connect
 //@   ensures |old(rest(reader))| <= 4194304 ==> rest(reader) == []                                          // label: drains-what-is-left-up-to-the-limit
 //@   ensures |old(rest(reader))| <= 4194304 && termerr(reader) == io.EOF ==> res && err == nil             // label: reports-the-end-when-it-reached-it
 //@   ensures |old(rest(reader))| > 4194304 ==> !res                                                        // label: more-than-the-limit-left-is-never-reported-as-drained-however-the-reader-reports-its-end
-//@ func (*grpcClient).NewConn$3(u, call) res
-//@   tags C03, C04, C06
+//@   ensures res ==> err == nil   // label: drained-means-no-error
+//@ func (*grpcClient).NewConn$3(u, call) (res, err)
+//@   tags C03, C04, C06, C15
 //@   requires call != nil
 //@   assigns rest(call)
 //@   ensures res != nil
+//@   ensures err == callres("discard", 1, 1)   // label: a-failed-drain-is-reported-to-Receive-not-dropped   // tags: C15
 //@   ensures |old(rest(call))| <= 4194304 && termerr(call) == io.EOF ==> res == wireTrailers(call)   // label: http-trailers-are-read-after-draining-the-body
 //@   ensures |old(rest(call))| > 4194304 ==> fresh(res)   // label: with-more-left-than-the-client-will-drain-the-trailers-are-out-of-reach-whatever-net/http-has-seen   // tags: C03
 
